@@ -1142,6 +1142,10 @@ func (f *Frame) loopHeader(h *ssa.BasicBlock, st *State, reach string) (*State, 
 		t := env2.trBool(inv.Expr)
 		g.assume(implies(reach, t))
 	}
+	// lemma instances for the coming iteration (terms evaluated at the loop head; the lemma is its own obligation)
+	for _, ap := range spec.Applies {
+		g.applyLemma(f.spec, ap, env2)
+	}
 	return hs, reach
 }
 
